@@ -10,7 +10,7 @@ From Coq Require Import NArith ZArith List Bool.
 From ST Require Import Base.Outcome Base.Units Utf.Spec Utf.Tokens Utf.Model Utf.ProofsC01 Utf.ProofsC03 Utf.ApiCoverage.
 From ST Require Utf.LeafBridge Gen.Leaf.
 From ST Require Utf.LoopBridge Utf.LoopBridgeMeasure Utf.LoopBridgeConvert32 Utf.LoopBridgeConvert16To8.
-From ST Require Utf.SourceFit Utf.SourceFit2 Utf.SourceFit3.
+From ST Require Utf.SourceFit Utf.SourceFit2 Utf.SourceFit3 Utf.SourceFit4.
 Import ListNotations.
 Local Open Scope N_scope.
 
@@ -249,3 +249,15 @@ Proof.
           (fun A => ST.Utf.SourceFit3.utf32_to_latin_1_source_pass_fits l m sub fuel A Hf))).
 Qed.
 Print Assumptions latin_1_target_source_passes_fit.
+
+(* UTF-16 -> UTF-8, the one pass with an ST_ASSERT: the translated pass never ends in ext_abort (the assertion is unreachable in
+   the code found in the headers) and fits the translated measuring pass like the others *)
+Theorem utf16_to_utf8_source_passes_fit : forall l m fuel, all_lt 65536 l = true ->
+  (4 * Z.of_nat (length l) < 18446744073709551616)%Z -> (length l < fuel)%nat ->
+  exists e ws n,
+    ST.Gen.Leaf.src_utf8_convert_from_utf16 fuel (ST.Utf.LoopBridge.arr32 l) (Z.of_nat (length l)) (ST.Utf.LoopBridgeConvert32.mode_code m)
+      = Some (Z.of_N (cerr_code e), ws) /\
+    ST.Gen.Leaf.src_utf8_measure_from_utf16 fuel (ST.Utf.LoopBridge.arr32 l) (Z.of_nat (length l)) = Some (Z.of_nat n) /\
+    (length ws <= n)%nat /\ (e = CSuccess -> length ws = n).
+Proof. exact ST.Utf.SourceFit4.utf16_to_utf8_source_passes_fit. Qed.
+Print Assumptions utf16_to_utf8_source_passes_fit.
